@@ -114,3 +114,35 @@ def exc_kind(ex):
                 return 'Untyped:%s-is-a-builtin-%s' % (name, [b.__name__ for b in (ValueError, TypeError, LookupError, ArithmeticError) if isinstance(ex, b)][0])
             return name
     return 'Untyped:' + type(ex).__name__
+
+
+def prior_tasks(wide=True):
+    """Properties that quantify over histories of the PROCESS ("whatever ran earlier") are observed after this battery: one short task
+    of several bundled optimizers through Opytimizer.start(), among them a relativistic swarm in a box so wide that its velocities pass the
+    light-speed constant, and a gravitational search on a constant objective (0/0 in the masses).  What a task leaves behind in the
+    process -- NumPy's error mode, print options, a cached constant, a spare deviate -- then meets the code under observation.  NumPy's
+    global generator is restored afterwards.  A task that does not complete is not this harness's subject (C03)."""
+    import importlib
+    import numpy as np
+    try:
+        from opytimizer import Opytimizer
+        from opytimizer.core.function import Function
+        from opytimizer.spaces.search import SearchSpace
+    except Exception:  # noqa: BLE001
+        return
+    st = np.random.get_state()
+    jobs = [('pso', 'PSO', [-5.0, -5.0], [5.0, 5.0], lambda x: float(np.sum(x ** 2))),
+            ('gsa', 'GSA', [0.0, 0.0], [1.0, 1.0], lambda x: np.float64(1.0)),
+            ('hs', 'HS', [-1.0], [1.0], lambda x: float(np.sum(np.abs(x)))),
+            ('cs', 'CS', [-5.0, -5.0], [5.0, 5.0], lambda x: float(np.sum(x ** 2)))]
+    if wide:
+        jobs.append(('rpso', 'RPSO', [-1e6, -1e6, -1e6], [1e6, 1e6, 1e6], lambda x: float(np.sum(x ** 2))))
+    for k, (mod, cls, lb, ub, f) in enumerate(jobs):
+        try:
+            np.random.seed(100 + k)
+            opt = getattr(importlib.import_module('opytimizer.optimizers.' + mod), cls)()
+            sp = SearchSpace(n_agents=4, n_variables=len(lb), n_iterations=4, lower_bound=lb, upper_bound=ub)
+            Opytimizer(space=sp, optimizer=opt, function=Function(pointer=f)).start()
+        except Exception:  # noqa: BLE001
+            pass
+    np.random.set_state(st)
